@@ -835,7 +835,7 @@ func Run(r *core.Run) {
 	necessity := map[string]map[string]bool{}
 	cfgs := []string{"Hash.quick.cfg", "Hash.dropq.cfg"}
 	if r.Thorough() {
-		cfgs = []string{"Hash.thorough.cfg", "Hash.n3.cfg", "Hash.drop.cfg"}
+		cfgs = []string{"Hash.quick.cfg", "Hash.thorough.cfg", "Hash.n3.cfg", "Hash.drop.cfg"}
 	}
 	seen := map[string]bool{}
 	for _, cfg := range cfgs {
@@ -875,7 +875,7 @@ func Run(r *core.Run) {
 	nSlices := 1
 	if r.Thorough() {
 		genCfg = "HashGen.thorough.cfg"
-		nSlices = 8
+		nSlices = 6
 	}
 	genFiles := map[string]string{}
 	{
@@ -951,6 +951,9 @@ func Run(r *core.Run) {
 	vwg.Wait()
 	wg.Wait()
 	candMu.Lock()
+	if cands == nil {
+		cands = []candidate{}
+	}
 	r.Set("model_candidates_code_before_repair", cands)
 	nec := map[string][]string{}
 	var uncovered []string
